@@ -27,6 +27,8 @@ type Root struct {
 	// Log, when set, is called for every event the root itself is offered
 	// (phase -1 = capture)
 	Log func(ev vaxis.Event, phase int)
+	// InitCmd, when set, is returned for the vxfw.Init event
+	InitCmd func() vxfw.Command
 
 	draws atomic.Int64
 	seen  chan int64
@@ -51,6 +53,9 @@ func (r *Root) CaptureEvent(ev vaxis.Event) (vxfw.Command, error) {
 }
 
 func (r *Root) HandleEvent(ev vaxis.Event, ph vxfw.EventPhase) (vxfw.Command, error) {
+	if _, ok := ev.(vxfw.Init); ok && r.InitCmd != nil {
+		return r.InitCmd(), nil
+	}
 	if r.Log != nil {
 		r.Log(ev, int(ph))
 	}
@@ -92,6 +97,7 @@ type App struct {
 func Start(cols, rows int, caps refterm.Caps, root *Root) (*App, error) {
 	tty := faketty.New(cols, rows, caps)
 	tty.Term.Strict = true
+	tty.Capture = true
 	root.seen = make(chan int64, 16)
 	type res struct {
 		a   *vxfw.App
